@@ -204,3 +204,35 @@ Fixpoint stateless_run (a b : point) (p : point) (ops : list op) : list (point *
   end.
 
 End Crosser.
+
+(** * The interface laws of the orientation predicate, as named propositions.
+    They are the premises of the C03 theorems (Props/C03.v) and the proof obligations of the
+    predicate layer (C02) for [sign := RobustSign], [triage := triageSign], [peq := Go ==]
+    on the points the library accepts (finite, unit length). *)
+Section InterfaceLaws.
+Variable point : Type.
+Variable peq : point -> point -> bool.
+Variable sign triage : point -> point -> point -> Z.
+Variable tangent : point -> point -> point -> point -> bool.
+Variable refdir : point -> point.
+
+Definition law_peq_refl : Prop := forall a, peq a a = true.
+Definition law_peq_sym : Prop := forall a b, peq a b = peq b a.
+Definition law_peq_trans : Prop := forall a b c, peq a b = true -> peq b c = true -> peq a c = true.
+(** RobustSign (2): rotating the arguments does not change the result *)
+Definition law_sign_rotate : Prop := forall a b c, sign b c a = sign a b c.
+(** RobustSign (3): exchanging two arguments inverts the result *)
+Definition law_sign_swap : Prop := forall a b c, sign c b a = - sign a b c.
+Definition law_sign_range : Prop := forall a b c, sign a b c = -1 \/ sign a b c = 0 \/ sign a b c = 1.
+(** RobustSign (1): Indeterminate iff two points are the same *)
+Definition law_sign_zero_iff : Prop := forall a b c,
+  sign a b c = 0 <-> (peq a b = true \/ peq b c = true \/ peq c a = true).
+(** == points are interchangeable in the predicate (±0 coordinates) *)
+Definition law_sign_peq : Prop := forall a b c c', peq c c' = true -> sign a b c = sign a b c'.
+(** a decisive triage answer is the exact answer (from H-TRIAGE-DET) *)
+Definition law_triage_sound : Prop := forall a b c, triage a b c <> 0 -> triage a b c = sign a b c.
+(** H-TANGENT: when the outward-tangent early exit fires, no vertex is shared and the four
+    exact orientations do not agree *)
+Definition law_tangent_sound : Prop := forall a b c d, tangent a b c d = true ->
+  shared point peq a b c d = false /\ four_agree point sign a b c d = false.
+End InterfaceLaws.
